@@ -10,6 +10,8 @@ from vf.oracles import most
 PROFILE_SETS = ("const", "most_u", "most_aniso", "mostm_s")
 HALOS = (0.0, None, 30.0, 20.0, 13.0, 45.0, 7.0)
 GRIDS = (((8, 6), (80.0, 90.0)), ((6, 8), (90.0, 80.0)))
+# odd sizes: the padded size is odd too, so only mode counts above it (clamped to it) are accepted
+ODD_GRIDS = (((7, 5), (70.0, 75.0)), ((8, 5), (80.0, 75.0)), ((5, 6), (75.0, 60.0)))
 
 
 def zgrid(nlay, zm=5.0, z0=0.05):
